@@ -192,6 +192,56 @@ def graph_body(m, perm, rot, tr, mirror, noise, nnoise=4):
             return "reflected coordinates do not give the enantiomer (==)"
     elif not (g2 == expected and expected == g2):
         return "graph from moved / reordered coordinates != renamed reference"
+    # (round 3) translation far from the origin: float64 still resolves 1e-8 A at 5e7 A, the perceived graph must not change
+    try:
+        g3 = StereoMolGraph.from_geometry(Geometry([els[i] for i in p], xyz2[p] + FAR))
+    except Exception as e:
+        return f"from_geometry raised {type(e).__name__} after a translation by {FAR.tolist()}: {e}"
+    s3 = gl.snap(g3)
+    if s3["bonds"] != s2["bonds"] or set(s3["astereo"]) != set(s2["astereo"]) or set(s3["bstereo"]) != set(s2["bstereo"]):
+        return f"translation by {FAR.tolist()} changes the perceived graph: bonds {sorted(s3['bonds'])} vs {sorted(s2['bonds'])}, centres {sorted(s3['astereo'])} vs {sorted(s2['astereo'])}"
+    for key in ("astereo", "bstereo"):
+        for k_, d in s2[key].items():
+            if s3[key][k_][0] != d[0] or not oracle.desc_equal(s3[key][k_], d):
+                return f"translation by {FAR.tolist()} changes {key}[{k_}]: {s3[key][k_]} vs {d}"
+    if not (g3 == g2):
+        return f"translation by {FAR.tolist()} gives an unequal graph"
+    # (round 3) a user-supplied cut-off for one element pair (given in one orientation, as documented for the dict) must act on that pair in every atom order
+    msg = _override_check(els, xyz, p, xyz2)
+    if msg:
+        return msg
+    return None
+
+
+FAR = np.array([5.0e7, -3.0e7, 4.0e7])
+
+
+def _override_check(els, xyz, p, xyz2):
+    from stereomolgraph.coords import BondsFromDistance, Geometry
+    from stereomolgraph.graphs.mg import MolGraph
+    geo = Geometry(els, xyz)
+    plain = MolGraph.from_geometry(geo)
+    cand = sorted(tuple(sorted(b)) for b in plain.bonds if els[min(b)] != els[max(b)])
+    if not cand:
+        return None
+    a, b = cand[0]
+    ta, tb = geo.atom_types[a], geo.atom_types[b]
+    d = float(np.linalg.norm(xyz[a] - xyz[b]))
+
+    def sw():
+        f = BondsFromDistance()
+        f.connectivity_cutoff[(ta, tb)] = 0.5 * d
+        return f
+    ref = MolGraph.from_geometry(geo, switching_function=sw())
+    if ref.has_bond(a, b):
+        return f"cut-off override {(els[a], els[b])} -> {0.5 * d:.3f} ignored in the reference order: bond {a}-{b} (length {d:.3f}) still present"
+    inv = {old: new for new, old in enumerate(p)}
+    g = MolGraph.from_geometry(Geometry([els[i] for i in p], xyz2[p]), switching_function=sw())
+    exp = {frozenset((inv[x], inv[y])) for x, y in map(tuple, ref.bonds)}
+    got = {frozenset(bb) for bb in g.bonds}
+    if got != exp:
+        return (f"with the cut-off override {(els[a], els[b])} -> {0.5 * d:.3f} the connectivity depends on the atom order {list(p)}: "
+                f"extra {sorted(map(sorted, got - exp))}, missing {sorted(map(sorted, exp - got))}")
     return None
 
 
